@@ -62,6 +62,47 @@ def _truncate(spec, limit=1500):
     return {"truncated_json": s[:limit] + "...", "full_length": len(s)}
 
 
+CASE_CPU_S = float(os.environ.get("VERIF_CASE_CPU_S", "10"))
+MAX_HANGS = 3
+
+
+class StopSearch(Exception):
+    """Enough hangs seen in this shard: stop exploring (the failure is established, more only burn time)."""
+
+
+def _on_timer(signum, frame):
+    raise core.CaseTimeout(f"case exceeded {CASE_CPU_S}s of CPU time")
+
+
+def guarded(mod, spec):
+    """mod.check(spec) under a per-case CPU-time budget.  A budget overrun inside library code becomes a failure
+    (`hang|...`); elsewhere it is a harness error."""
+    import signal
+
+    signal.signal(signal.SIGPROF, _on_timer)
+    signal.setitimer(signal.ITIMER_PROF, CASE_CPU_S, CASE_CPU_S)
+    try:
+        return mod.check(spec)
+    except core.CaseTimeout as e:
+        if core.in_library(e):
+            out = core.Outcome()
+            out.fail(f"hang|{core.exc_frame(e, outermost=True)}", f"no result after {CASE_CPU_S}s CPU, in {core.exc_frame(e)}")
+            return out
+        raise core.HarnessError(f"case budget exceeded outside library code: {core.exc_frame(e)}") from e
+    finally:
+        signal.setitimer(signal.ITIMER_PROF, 0)
+
+
+def limit_memory():
+    import resource
+
+    lim = int(os.environ.get("VERIF_WORKER_AS_MB", "6144")) << 20
+    try:
+        resource.setrlimit(resource.RLIMIT_AS, (lim, lim))
+    except (ValueError, OSError):
+        pass
+
+
 def hyp_settings(max_examples: int, shrink: bool = False):
     from hypothesis import HealthCheck, Phase, settings
 
@@ -96,13 +137,23 @@ def run_search(mod, tier, seed, shard, nshards, args) -> dict:
         return col.result()
     strat = mod.strategy(tier)
 
+    hangs = [0]
+
     @hseed(derive_seed(seed, shard))
     @hyp_settings(n)
     @given(strat)
     def t(spec):
-        col.handle(spec, mod.check(spec))
+        out = guarded(mod, spec)
+        col.handle(spec, out)
+        if any(f.sig.startswith("hang|") for f in out.failures):
+            hangs[0] += 1
+            if hangs[0] >= MAX_HANGS:
+                raise StopSearch
 
-    t()
+    try:
+        t()
+    except StopSearch:
+        pass
     return col.result()
 
 
@@ -111,7 +162,7 @@ def run_exhaustive(mod, tier, seed, shard, nshards, args) -> dict:
     for i, spec in enumerate(mod.exhaustive(tier)):
         if i % nshards != shard:
             continue
-        col.handle(spec, mod.check(spec))
+        col.handle(spec, guarded(mod, spec))
     return col.result()
 
 
@@ -122,7 +173,7 @@ def run_replay(mod, tier, seed, shard, nshards, args) -> dict:
         with open(path) as f:
             doc = json.load(f)
         spec = doc["spec"]
-        out = mod.check(spec)
+        out = guarded(mod, spec)
         col.handle(spec, out)
         per_file[path] = [{"sig": f.sig, "message": f.message} for f in out.failures]
     res = col.result()
@@ -161,7 +212,7 @@ def run_shrink(mod, tier, seed, shard, nshards, args) -> dict:
         elif time.time() - t0 > budget_s and best["spec"] is not None:
             return
         else:
-            out = mod.check(spec)
+            out = guarded(mod, spec)
             msg = None
             for f in out.failures:
                 if f.sig == sig:
@@ -191,6 +242,7 @@ def main(argv):
     res = {}
     code = 0
     try:
+        limit_memory()
         core.ensure_repo_import()
         mod = importlib.import_module(f"hv.props.{prop.lower()}")
         fn = {"search": run_search, "exhaustive": run_exhaustive, "replay": run_replay, "shrink": run_shrink}[mode]
